@@ -1162,6 +1162,71 @@ def _run_cli_anchor(case):
     return Outcome(list(out.classes) + ['anchor:' + name], True)
 
 
+# ---------------------------------------------------------------------------
+# part: symlinked destination (fixed cases)
+
+def _enum_symlinked(tier, shard, nshards):
+    cases = [{'mode': mode, 'link': link, 'slot_taken': slot, 'name': name}
+             for mode in ('w', 'wb', 'w+') for link in ('relative', 'absolute') for slot in (False, True)
+             for name in ('out.txt', 'cg.pdb')]
+    for idx, case in enumerate(cases):
+        if idx % nshards == shard:
+            yield case
+
+
+def _run_symlinked(case):
+    """The destination is an existing symbolic link to a file in another directory.  The destination is the name that was
+    asked for: after finalisation that name holds exactly what was written, what it showed before is kept under the first
+    free #name.k# next to it, and the file the link pointed to is neither rewritten nor renamed."""
+    name = case['name']
+    old, new = b'OLD<' + name.encode() + b'>\n', b'NEW content\n'
+    with Sandbox(False) as sb:
+        shared = os.path.join(sb.root, 'n1', 'shared')
+        os.makedirs(shared)
+        target = os.path.join(shared, 'reference.dat')
+        with open(target, 'wb') as handle:
+            handle.write(old)
+        os.symlink(target if case['link'] == 'absolute' else os.path.relpath(target, sb.work), os.path.join(sb.work, name))
+        if case['slot_taken']:
+            with open(os.path.join(sb.work, backup_name(name, 1)), 'wb') as handle:
+                handle.write(b'BK1\n')
+        binary = 'b' in case['mode']
+        with fw_module.deferred_open(name, case["mode"]) as handle:
+            handle.write(new if binary else new.decode())
+        with open(target, 'rb') as handle:
+            if handle.read() != old:
+                raise Violation('symlink-target-touched-early', 'the file the destination links to changed before finalisation')
+        sb.writer.write()
+        with open(os.path.join(sb.work, name), 'rb') as handle:
+            got = handle.read()
+        if got != new:
+            raise Violation('symlink-destination-content', 'destination %r holds %r after finalisation, %r was written' % (name, got, new))
+        with open(target, 'rb') as handle:
+            now = handle.read()
+        if now != old:
+            raise Violation('symlink-target-rewritten', 'the file the destination linked to (in another directory, never opened through '
+                            'the writer) now holds %r instead of %r' % (now, old))
+        stray = sorted(n for n in os.listdir(shared) if n != 'reference.dat')
+        if stray:
+            raise Violation('symlink-target-renamed', 'new files next to the link target: %r' % stray)
+        slot = 2 if case['slot_taken'] else 1
+        backup = os.path.join(sb.work, backup_name(name, slot))
+        if not os.path.lexists(backup):
+            raise Violation('symlink-backup-missing', 'what %r showed before is not kept under %r; directory holds %r' % (
+                name, backup_name(name, slot), sorted(os.listdir(sb.work))))
+        with open(backup, 'rb') as handle:
+            if handle.read() != old:
+                raise Violation('symlink-backup-content', 'the backup %r does not show the old content' % backup_name(name, slot))
+        if case['slot_taken']:
+            with open(os.path.join(sb.work, backup_name(name, 1)), 'rb') as handle:
+                if handle.read() != b'BK1\n':
+                    raise Violation('symlink-backup-overwritten', 'an occupied backup slot was overwritten')
+        extra = sorted(set(os.listdir(sb.work)) - {name, backup_name(name, 1), backup_name(name, 2)})
+        if extra:
+            raise Violation('symlink-extra-files', 'unexpected files %r' % extra)
+    return Outcome(['mode-' + case['mode'], 'link-' + case['link']] + (['backup-slot-occupied'] if case['slot_taken'] else []), True)
+
+
 PARTS = [
     # the subprocess runs come first so that their (few, slow) shards start at once
     Part('cli-gate', _run_cli, strategy=_strategy_cli,
@@ -1169,6 +1234,7 @@ PARTS = [
          shrink_budget={'quick': 3, 'thorough': 6},
          floors={'gate-shut': 0.2, 'gate-open-with-warnings': 0.08}),
     Part('cli-gate-anchors', _run_cli_anchor, enumerate=_enum_cli_anchors),
+    Part('symlinked-destination', _run_symlinked, enumerate=_enum_symlinked),
     Part('history', _run_history, strategy=_strategy_history,
          examples={'quick': 2400, 'thorough': 60000},
          floors={'finalise-backup': 0.2, 'finalise-backup-occupied': 0.1, 'finalise-backup-gap': 0.03,
